@@ -278,14 +278,16 @@ def write_replay(prop, rep_dir, i, ob, res, ded, mod):
         if s.target == ob.unit:
             spec = s
     rp = getattr(spec, "replay", None)
-    if rp is not None:
-        try:
-            out = rp(model, ob)
-            if out is not None:
-                rec["replay"] = out
-                confirmed = bool(out.get("confirmed"))
-        except Exception as e:
-            rec["replay_error"] = repr(e)
+    from . import replay as _replay
+    try:
+        out = rp(model, ob) if rp is not None else None
+        if out is None:
+            out = _replay.generic_replay(ob)
+        if out is not None:
+            rec["replay"] = out
+            confirmed = bool(out.get("confirmed"))
+    except Exception as e:
+        rec["replay_error"] = repr(e) + traceback.format_exc()[-800:]
     if not confirmed:
         rec["note"] = ("no-failing-input-found: the obligation is refuted by the solver (model above, smt2 below); "
                        "no concrete failing input was reproduced on the real code")
